@@ -68,6 +68,23 @@ BATCH_SHADOW_SRCS = [
     "sdk/src/trace/batch_span_processor.cc",
     "sdk/src/logs/batch_log_record_processor.cc",
 ]
+# the periodic metric reader (C02 / C03 reader clauses)
+READER_SHADOW = [
+    "sdk/include/opentelemetry/sdk/metrics/export/periodic_exporting_metric_reader.h",
+    "sdk/src/metrics/export/periodic_exporting_metric_reader.cc",
+    "sdk/include/opentelemetry/sdk/metrics/metric_reader.h",
+    "sdk/src/metrics/metric_reader.cc",
+]
+SIMPLE_SHADOW = [
+    "sdk/include/opentelemetry/sdk/trace/simple_processor.h",
+    "sdk/include/opentelemetry/sdk/logs/simple_log_record_processor.h",
+    "sdk/src/logs/simple_log_record_processor.cc",
+]
+SIMPLE_SHADOW_SRCS = ["sdk/src/logs/simple_log_record_processor.cc"]
+READER_SHADOW_SRCS = [
+    "sdk/src/metrics/export/periodic_exporting_metric_reader.cc",
+    "sdk/src/metrics/metric_reader.cc",
+]
 # plain (unshadowed) repository sources the shadowed classes need at link time
 BATCH_PLAIN = [
     "sdk/src/trace/exporter.cc",
